@@ -272,7 +272,13 @@ def execute(sc):
         import sys
         old_limit = sys.getrecursionlimit()
         if outcome == ["raise", "RecursionError-real"]:
-            sys.setrecursionlimit(350)  # real recursion, but a short way down
+            # real recursion, but a short way down - and relative to where we are, so that the number
+            # of frames in the traceback does not depend on how deep the harness itself was called
+            fr, depth = sys._getframe(), 0
+            while fr is not None:
+                depth += 1
+                fr = fr.f_back
+            sys.setrecursionlimit(depth + 260)
             res.probe("real_recursion_error")
         try:
             status = app.run(ArgvArgs(["prog"] + tokens), inp, out, err)
